@@ -4,7 +4,7 @@ import json, os, shutil, subprocess, sys
 prop, i, name = sys.argv[1], sys.argv[2], sys.argv[3]
 wt = "/tmp/wt_" + prop
 src = f"/verif/seeded/_incoming/{prop}"
-env = dict(os.environ, PYTHONPATH=wt + "/src", YAW_NUM_THREADS=os.environ.get("YAW_NUM_THREADS", "2"))
+env = dict(os.environ, PYTHONPATH=wt + "/src", YAW_NUM_THREADS=os.environ.get("YAW_NUM_THREADS", "1"))
 def run(cmd, **k):
     return subprocess.run(cmd, shell=True, cwd=wt, env=env, capture_output=True, text=True, **k)
 assert run("git status --short src").stdout.strip() == "", "worktree not clean"
